@@ -423,6 +423,33 @@ for (leaf, klen, tw) in _A64:
           replace=["Skinny64__clear"], must_have=PC, replay=RA)
 
 
+HAM = "h_ard_mantis8.c"
+J("am.sizes", ["C19"], HAM, "h_sizes", loops=False, must_have=["C19 constructor"], replay="ardm")
+J("am.encryptBlock", ["C19"], HAM, "h_encryptBlock", enforce="Mantis8__encryptBlock", must_have=LC + PC, replay="ardm", timeout=1800,
+  note="forward and reflected loops in lock-step with the paper's MANTIS-8 steps; arbitrary object state")
+J("am.decryptBlock", ["C19"], HAM, "h_decryptBlock", enforce="Mantis8__decryptBlock", replace=["Mantis8__encryptBlock"], loops=False,
+  must_have=PC, replay="ardm", note="delegates to the same core")
+J("am.setKey", ["C19"], HAM, "h_setKey", enforce="Mantis8__setKey", loops=False, unwind=10, must_have=PC, replay="ardm",
+  note="the 8-iteration rotate loop and the 8-byte clean() loop are unwound (program-constant bounds, unwinding assertions on)")
+J("am.setTweak", ["C19"], HAM, "h_setTweak", enforce="Mantis8__setTweak", loops=False, must_have=PC, replay="ardm")
+J("am.swapModes", ["C19"], HAM, "h_swapModes", enforce="Mantis8__swapModes", loops=False, must_have=PC, replay="ardm")
+J("am.clear", ["C19"], HAM, "h_clear", enforce="Mantis8__clear", must_have=PC, replay="ardm")
+
+
+HAC = "h_ard_ctr.c"
+_BC = ["BlockCipher__blockSize", "BlockCipher__keySize", "BlockCipher__setKey", "BlockCipher__encryptBlock", "BlockCipher__decryptBlock", "BlockCipher__clear"]
+J("actr.ctor", ["C19"], HAC, "h_ctor", loops=False, must_have=["C19 constructor"], replay="ardctr")
+J("actr.setCounterSize", ["C19"], HAC, "h_setCounterSize", enforce="CTRCommon__setCounterSize", loops=False, must_have=PC, replay="ardctr")
+J("actr.setKey", ["C19"], HAC, "h_setKey", enforce="CTRCommon__setKey", replace=_BC, loops=False, must_have=PC, replay="ardctr",
+  note="delegation to the cipher (exactly once, same arguments) and keystream reset on a successful key change, as every *_ctr_def_set_key of the library")
+J("actr.setIV", ["C19"], HAC, "h_setIV", enforce="CTRCommon__setIV", loops=False, must_have=PC, replay="ardctr")
+J("actr.clear", ["C19"], HAC, "h_clear", enforce="CTRCommon__clear", replace=_BC, must_have=PC, replay="ardctr")
+J("actr.encrypt", ["C19"], HAC, "h_encrypt", enforce="CTRCommon__encrypt", replace=_BC, must_have=LC + PC + ["ptr-norm"], replay="ardctr", timeout=3000,
+  note="witness data byte W and its keystream block KB; big-endian counter arithmetic on the low 16 - counterStart bytes in 128-bit ghost arithmetic; "
+       "size <= 2^40 symbolic; in place or disjoint")
+J("actr.decrypt", ["C19"], HAC, "h_decrypt", enforce="CTRCommon__decrypt", replace=["CTRCommon__encrypt"], loops=False, must_have=PC, replay="ardctr")
+
+
 # The extraction flattens the C++ object into separate file-scope objects, so CBMC's object-bounds check on pointer
 # ARITHMETIC (not on dereferences, which stay checked) is not meaningful there: Skinny128::decryptBlock leaves its
 # loop with `schedule -= 2` pointing two words before sched[], which in the real object is still inside the object.
@@ -440,7 +467,7 @@ for _j in JOBS:
 # reports as UNDECIDED, never as a violation.
 import re as _re
 _LOOPY = _re.compile(r"(ecb_encrypt|ecb_decrypt|set_tk[123]$|xor_tk1$|\.def_encrypt$|^v\w+\.encrypt$|^p\w+\.(encrypt|decrypt|crypt)$|"
-                     r"^a\w+\.\w+\.(encryptBlock|decryptBlock|setTK[123]|xorTK1|clear|tclear|clean)$|^i\.(cleanse|xor)$|ecb_crypt|overlap_|^ex\.\w+_main$|^ex\.parse_options$|\.eblock$|^pv\w+\.|^lemma\.)")
+                     r"^a\w+\.\w+\.(encryptBlock|decryptBlock|setTK[123]|xorTK1|clear|tclear|clean)$|^am\.(encryptBlock|clear)$|^actr\.(encrypt|clear)$|^i\.(cleanse|xor)$|ecb_crypt|overlap_|^ex\.\w+_main$|^ex\.parse_options$|\.eblock$|^pv\w+\.|^lemma\.)")
 for _j in JOBS:
     if _j.loops and not _LOOPY.search(_j.id):
         _j.loops = False
